@@ -14,7 +14,8 @@ RULE = ("full product ALL 12 versions x depth{0,1,2,127,254,255} x child number{
         "ALL three input forms (str, bytes, BytesIO); unknown versions: 0, 0xffffffff, every listed version +-1, other coins' "
         "constants. Oracle: string built by the reference serialiser from the fields; parse returns the fields; re-serialisation "
         "reproduces the string; equality with a constructed node; Version table typed in from SLIP-132; public serialisations "
-        "contain the reference compressed key and never the scalar. non-trivial = fields and strings compared; distinct by construction")
+        "contain the reference compressed key and never the scalar. non-trivial = fields and strings compared; distinct by construction"
+        "; intermediate-corner classes (vf/corners.py) for checksum, fingerprint, child number, chain code, x, low scalar byte, and the Base58 digits (zero digit / zero pair at every inner position)")
 
 VERSIONS = sorted(hd.SLIP132)
 DEPTHS = [0, 1, 2, 127, 254, 255]
